@@ -1842,33 +1842,53 @@ void time_from_two_threads()
   if (!vf::entry_enabled(e) || !vf::mine(vf::hash_str(e)))
     return;
   vf::set_entry(e);
-  if (!vf::begin_case("two threads, 20000 calls each, arguments 1234567890+k*86400*37 and 86400*365*k"))
+  if (!vf::begin_case("four threads (two on localtime, two on gmtime), 150000 calls each over 64 different arguments per thread"))
     return;
   vf::note_distinct(vf::hash_str(e));
   std::atomic<unsigned> mismatches{0}, calls{0};
-  auto const worker = [&](std::time_t base, std::time_t step) {
-    for (int k = 0; k < 20000; ++k)
-    {
-      std::time_t const t = base + step * (k % 400);
-      std::tm want{};
-      ::localtime_r(&t, &want);
-      std::tm const got = fcppt::time::localtime(t);
-      if (got.tm_year != want.tm_year || got.tm_mon != want.tm_mon || got.tm_mday != want.tm_mday || got.tm_hour != want.tm_hour || got.tm_min != want.tm_min ||
-          got.tm_sec != want.tm_sec)
-        ++mismatches;
-      std::tm wantg{};
-      ::gmtime_r(&t, &wantg);
-      std::tm const gotg = fcppt::time::gmtime(t);
-      if (gotg.tm_year != wantg.tm_year || gotg.tm_mon != wantg.tm_mon || gotg.tm_mday != wantg.tm_mday || gotg.tm_hour != wantg.tm_hour || gotg.tm_sec != wantg.tm_sec)
-        ++mismatches;
-      calls += 2;
-    }
+  // expected values first (re-entrant C functions), then four threads in a tight loop over the library functions only
+  struct row
+  {
+    std::time_t t;
+    std::tm local, utc;
   };
+  auto const table = [](std::time_t base, std::time_t step) {
+    std::vector<row> r(64);
+    for (std::size_t k = 0; k < r.size(); ++k)
+    {
+      r[k].t = base + step * static_cast<std::time_t>(k);
+      ::localtime_r(&r[k].t, &r[k].local);
+      ::gmtime_r(&r[k].t, &r[k].utc);
+    }
+    return r;
+  };
+  auto const same = [](std::tm const &a, std::tm const &b) {
+    return a.tm_year == b.tm_year && a.tm_mon == b.tm_mon && a.tm_mday == b.tm_mday && a.tm_hour == b.tm_hour && a.tm_min == b.tm_min && a.tm_sec == b.tm_sec;
+  };
+  std::atomic<unsigned> ready{0};
+  auto const worker = [&](std::vector<row> const &rows, bool local) {
+    ++ready;
+    while (ready.load() < 4)
+    {
+    }
+    unsigned bad = 0;
+    for (int k = 0; k < 150000; ++k)
+    {
+      row const &r = rows[static_cast<std::size_t>(k) % rows.size()];
+      if (local ? !same(fcppt::time::localtime(r.t), r.local) : !same(fcppt::time::gmtime(r.t), r.utc))
+        ++bad;
+    }
+    mismatches += bad;
+    calls += 150000;
+  };
+  auto const t1 = table(std::time_t{1234567890}, std::time_t{86400 * 37}), t2 = table(std::time_t{86400}, std::time_t{86400 * 365}), t3 = table(std::time_t{946684800}, std::time_t{3601}),
+             t4 = table(std::time_t{1700000000}, std::time_t{86400 * 11});
   guard(wl_none, [&] {
-    std::thread a(worker, std::time_t{1234567890}, std::time_t{86400 * 37});
-    std::thread b(worker, std::time_t{86400}, std::time_t{86400 * 365});
+    std::thread a(worker, std::cref(t1), true), b(worker, std::cref(t2), true), c(worker, std::cref(t3), false), d(worker, std::cref(t4), false);
     a.join();
     b.join();
+    c.join();
+    d.join();
   });
   vf::count("calls/" + e, calls.load());
   VF_COUNT("bucket/time-functions-from-two-threads");
